@@ -278,6 +278,44 @@ scan_region (const unsigned char *b, size_t n, const unsigned char *skip0,
   return hits;
 }
 
+/* Scan the program's own static storage (.data/.bss: the library objects are linked in, so crypt()'s and
+   crypt_gensalt()'s static objects and anything the library caches live here) for pass-phrase windows.
+   Ranges of the harness that legitimately hold phrase-derived bytes are skipped.  Only in builds without
+   ASan/MSan (red zones between globals must not be read).  */
+#if !defined(__SANITIZE_ADDRESS__) && !defined(VW_MSAN) && !defined(__SANITIZE_THREAD__) && !defined(VW_SYS) && !defined(VW_SO)
+# define VW_STATIC_SCAN 1
+extern char __data_start[], _end[];
+struct skiprange { const unsigned char *p; size_t n; };
+static struct skiprange static_skips[12];
+static int n_static_skips;
+static void
+static_skip (const void *p, size_t n)
+{
+  if (n_static_skips < 12) static_skips[n_static_skips++] = (struct skiprange) { p, n };
+}
+static void register_static_skips (void);
+static long
+scan_static (const void *skip, size_t skiplen)
+{
+  long hits = 0;
+  if (!n_needles) return 0;
+  int nsk = n_static_skips;
+  if (skip && nsk < 12) static_skips[n_static_skips++] = (struct skiprange) { skip, skiplen };
+  const unsigned char *b = (const unsigned char *) __data_start, *e = (const unsigned char *) _end;
+  for (const unsigned char *q = b; q + 8 <= e; q++)
+    {
+      int skip = 0;
+      for (int k = 0; k < n_static_skips; k++)
+        if (q + 8 > static_skips[k].p && q < static_skips[k].p + static_skips[k].n)
+          { q = static_skips[k].p + static_skips[k].n - 1; skip = 1; break; }
+      if (skip) continue;
+      if (needle_has (q)) hits++;
+    }
+  n_static_skips = nsk;
+  return hits;
+}
+#endif
+
 /* ------------------------------------------------------------------ */
 /* ledger + interposition layer (DESIGN §3.3)                          */
 
@@ -767,7 +805,7 @@ cmd_crypt (int argc, char **argv)
   uint64_t nonce = canary_nonce++;
   /* argmode: s = separate exact-size buffers; i = phrase and setting inside the object's own fields;
      p = only the phrase inside (data->input); g = only the setting inside (data->setting) */
-  if (argmode != 's' && !(full && pl >= 0 && sl >= 0 && pl < 512 && sl < 384))
+  if (argmode != 's' && argmode != 'o' && !(full && pl >= 0 && sl >= 0 && pl < 512 && sl < 384))
     argmode = 's';
   int set_in = (argmode == 'i' || argmode == 'g'), phr_in = (argmode == 'i' || argmode == 'p');
   if (full)
@@ -784,10 +822,21 @@ cmd_crypt (int argc, char **argv)
       memcpy (snap, cd, sizeof snap);
 #endif
     }
-  if (scan_on && pl >= 0) needles_for_phrase (pb, (size_t) pl);
+  static char *last_static_ret;
+  unsigned char *alias_copy = 0;
+  int aliased = 0;
+  if (argmode == 'o' && entry == 0 && last_static_ret && strlen (last_static_ret) >= 8)
+    {
+      /* the phrase is the string the previous crypt() returned, passed by the very same pointer */
+      aliased = 1;
+      alias_copy = (unsigned char *) strdup (last_static_ret);
+      if (scan_on) needles_for_phrase (alias_copy, strlen ((char *) alias_copy));
+    }
+  else if (scan_on && pl >= 0) needles_for_phrase (pb, (size_t) pl);
+  else needle_clear ();          /* no phrase (NULL): needles of an earlier call must not be matched */
 
   cc.entry = entry;
-  cc.phrase = phr_in ? cd->input : phrase;
+  cc.phrase = aliased ? last_static_ret : phr_in ? cd->input : phrase;
   cc.setting = set_in ? cd->setting : setting;
   cc.data = cd;
   cc.size = !strcmp (argv[5], "=") ? (int) objsize : atoi (argv[5]);
@@ -805,8 +854,9 @@ cmd_crypt (int argc, char **argv)
   long outmax = 0;
   if (entry == 0)
     {
-      out_printf (" r=%c", ret ? 'S' : 'N');
+      out_printf (" r=%c al=%d", ret ? 'S' : 'N', aliased);
       outfield = ret; outmax = 384;
+      last_static_ret = ret;
     }
   else if (entry == 3)
     {
@@ -890,6 +940,21 @@ cmd_crypt (int argc, char **argv)
       out_printf (" sk=%ld su=%ld", hits, pstack_used ());
     }
   if (scan_on) out_printf (" mh=%ld nn=%zu", g_munmap_hits, n_needles);
+#ifdef VW_STATIC_SCAN
+  if (scan_on && n_needles)
+    {
+      static int skips_done;
+      if (!skips_done)
+        {
+          skips_done = 1;
+          register_static_skips ();
+        }
+      /* the string crypt() just returned lives in its static object: when the phrase was that very string
+         (aliased call) the output field is where it legitimately was */
+      out_printf (" ss=%ld", scan_static (aliased ? ret : 0, 384));
+    }
+#endif
+  free (alias_copy);
 #ifndef VW_NOWRAP
   if (g_ledger_on)
     {
@@ -1006,6 +1071,20 @@ struct mtitem
 };
 #define MT_MAXITEMS 512
 static struct mtitem mtitems[MT_MAXITEMS];
+#ifdef VW_STATIC_SCAN
+static void
+register_static_skips (void)
+{
+  static_skip (needle_tab, sizeof needle_tab);
+  static_skip (needle_used, sizeof needle_used);
+  static_skip (ucs_first6, sizeof ucs_first6);
+  static_skip (snap, sizeof snap);
+  static_skip (mtitems, sizeof mtitems);
+  static_skip (outbuf, sizeof outbuf);
+  static_skip (g_ev, sizeof g_ev);
+  static_skip (g_ent_sub, sizeof g_ent_sub);
+}
+#endif
 static int n_mtitems;
 
 struct mtlog { uint64_t t0, t1; int item; int ep; char *res; };
